@@ -148,8 +148,12 @@ class Family:
     def loghash(self) -> str:
         return self._lh.hexdigest()
 
+    DEEP = ("blocked_then_granted", "waited_across_time", "chain_handoff")
+
     def probe(self, name: str):
         self.counters["probe." + name] = 1
+        if name in self.DEEP:
+            self.counters[f"probe.{self.sc['family']}.{name}"] = 1
 
     # -- hooks ------------------------------------------------------------
     def process(self, w: Worker):
@@ -369,6 +373,13 @@ class SyncFam(Family):
 
     def _init_sync(self):
         self.blockedq: list[Req] = []
+        self.came_from_queue: set[int] = set()   # workers whose current holding was obtained by waiting
+
+    def note_release_woke(self, w):
+        """A release woke a waiter; if the releaser itself had waited for what it releases: hand-off chain."""
+        self.probe("release_woke_waiter")
+        if w.idx in self.came_from_queue:
+            self.probe("chain_handoff")
 
     def waiters_of(self) -> int:
         raise NotImplementedError
@@ -413,6 +424,9 @@ class SyncFam(Family):
         if r.blocked:
             self.on_resume_blocked(r)
             granted_now()
+            self.came_from_queue.add(w.idx)
+        else:
+            self.came_from_queue.discard(w.idx)
         return res
 
 
@@ -492,7 +506,7 @@ class MutexFam(SyncFam):
         evs = self.m.release()
         self.counters["op.release"] += 1
         if wq:
-            self.probe("release_woke_waiter")
+            self.note_release_woke(w)
             if self.m.waiters != wq - 1:
                 bad("fifo", self.CLS, "release-handoff-count", f"release with {wq} waiters left {self.m.waiters} queued")
         return evs
@@ -616,7 +630,7 @@ class SemaphoreFam(SyncFam):
         self.counters["op.release"] += 1
         woke = q0 - self.s.waiters
         if woke:
-            self.probe("release_woke_waiter")
+            self.note_release_woke(w)
         if woke > 1:
             self.probe("release_woke_several")
 
@@ -717,6 +731,8 @@ class RWLockFam(SyncFam):
                 self.counters["op.acquire_write"] += 1
                 r = Req(self.rid(), w.idx, "writer")
                 yield from self.acquire_via(w, r, l.acquire_write(), lambda: self._take_w(w, "acquire_write"))
+                if r.blocked and self.now_ns() > r.t_req:
+                    self.probe("writer_granted_after_waiting_across_time")
                 mode = "w"
             elif k == "tryrd" and mode is None:
                 w.cur = "try_acquire_read"
@@ -755,7 +771,7 @@ class RWLockFam(SyncFam):
         self.counters["op.release"] += 1
         woke = q0 - self.l.waiters
         if woke:
-            self.probe("release_woke_waiter")
+            self.note_release_woke(w)
         if woke > 1:
             self.probe("release_woke_reader_batch")
 
@@ -790,6 +806,8 @@ class RWLockFam(SyncFam):
                     self.probe("reader_queued_behind_waiting_writer")
             else:
                 full = self.mr is not None and l.active_readers >= self.mr
+                if full and not l.is_write_locked:
+                    self.probe("reader_wake_capped_by_max_readers")
                 if not (l.is_write_locked or full):
                     bad("head-waiter-served", self.CLS, "reader-waits-on-readable-lock",
                         f"head waiter is a reader, no writer holds the lock, active_readers={l.active_readers}, max={self.mr}")
@@ -855,6 +873,10 @@ class BarrierFam(Family):
                         self.released += len(self.cur_gen)
                         self.cur_gen = []
                         self.probe("tripped")
+                        if self.trips >= 3:
+                            self.probe("barrier_generations_ge_3")
+                        if len(self.workers) > self.n > 1:
+                            self.probe("barrier_more_workers_than_parties")
                     else:
                         if len(self.cur_gen) + 1 >= self.n:
                             bad("head-waiter-served", self.CLS, "last-party-blocked",
@@ -943,6 +965,8 @@ class ConditionFam(Family):
                 rounds = 0
                 while self.items <= 0 and rounds < int(op.get("max_waits", 3)):
                     rounds += 1
+                    if rounds >= 2:
+                        self.probe("condition_wait_rounds_ge_2")
                     w.cur = "wait"
                     ordinal = self.n_wait
                     self.n_wait += 1
@@ -991,6 +1015,10 @@ class ConditionFam(Family):
                 self.woken += q0 - c.waiters
                 if q0 - c.waiters:
                     self.probe("release_woke_waiter")
+                else:
+                    self.probe("notify_without_waiters")
+                if q0 - c.waiters >= 2:
+                    self.probe("notify_woke_several")
                 if op.get("hold_ns"):
                     yield from self.hold(w, op["hold_ns"])
                 w.cur = "release"
@@ -1007,6 +1035,8 @@ class ConditionFam(Family):
             bad("conservation", "Mutex", "locked-flag-free-while-held", f"worker {self.holder} is in the critical section, is_locked=False")
         if m.waiters > 0 and not m.is_locked:
             bad("head-waiter-served", "Mutex", "waiting-on-free-lock", f"{m.waiters} waiters while the condition's mutex is free")
+        if notified_inside >= 2 and m.waiters >= 1:
+            self.probe("woken_waiters_contend_for_mutex")
         self.states.add(f"cv:{min(c.waiters, 3)}:{min(m.waiters, 3)}:{int(m.is_locked)}:{min(self.items, 2)}")
 
     def eoi(self):
@@ -1061,6 +1091,8 @@ class PoolFam(SyncFam):
         self.prev_total = 0
         self.prev_closed = 0
         self.setup_overlap = False          # a connection set-up began while another one was in flight
+        self.prev_pending = 0
+        self.worker_touched_queue = False   # a worker released or timed out during the current delivery
         self._init_sync()
         return [self.p, self.sink]
 
@@ -1116,6 +1148,7 @@ class PoolFam(SyncFam):
                         bad("served-eventually", self.CLS, "timeout-without-waiting", "TimeoutError for a request that never queued")
                     waited = self.now_ns() - t0
                     self.blockedq.remove(r)
+                    self.worker_touched_queue = True
                     self.probe("timeout")
                     if waited < self.timeout_ns - 1000:
                         bad("served-eventually", self.CLS, "timeout-early", f"timed out after {waited}ns < connection_timeout {self.timeout_ns}ns")
@@ -1151,6 +1184,7 @@ class PoolFam(SyncFam):
         self.note(w.idx, "release", conn.id)
         q0 = self.p.pending_requests
         evs = self.p.release(conn)
+        self.worker_touched_queue = True
         self.counters["op.release"] += 1
         if q0:
             self.probe("release_woke_waiter")
@@ -1186,6 +1220,10 @@ class PoolFam(SyncFam):
             if self.prev_total - (closed - self.prev_closed) < self.minc:
                 bad("conservation", self.CLS, "closed-below-min", f"closed a connection with total={self.prev_total}, min={self.minc}")
         self.prev_total, self.prev_closed = tot, closed
+        if p.pending_requests < self.prev_pending and not self.worker_touched_queue:
+            self.probe("warmup_handed_connection_to_waiter")
+        self.prev_pending = p.pending_requests
+        self.worker_touched_queue = False
         self.states.add(f"pool:{min(act, 3)}:{min(idle, 3)}:{min(p.pending_requests, 3)}:{min(self.creating, 3)}:{min(g, 2)}")
 
     def final(self):
